@@ -1,0 +1,7 @@
+//go:build !verif
+
+package wallet
+
+// verifGate is a verification gate point; it does nothing unless the package is
+// built with the "verif" tag (see verif_gate.go).
+func verifGate(w *Wallet, point string) {}
